@@ -4,7 +4,7 @@
 -/
 import Kevo.Model.ConcCore
 
-namespace Kevo.Conc
+namespace Kevo.LConc
 
 /-! ### syntactic lock sets -/
 
@@ -473,4 +473,4 @@ example : âˆ€ sched s, reach exN sched = some s â†’ âˆ€ t, Unfinished exN s t â†
 
 example : (reach exN [0, 0, 0, 0, 5, 5, 5, 5, 7]).isSome = true := by decide
 
-end Kevo.Conc
+end Kevo.LConc
